@@ -53,7 +53,7 @@ def _worker(names):
         after = lambda I, inst, R, frame, args: collected.extend(extra(I, inst, R, frame, args) or [])
     I, res, errs = analyse_all(facts, invariants, roots, after_root=after)
     obls = [(o.key, o.kind, o.inst, o.where, o.detail, o.ok, o.fail, o.contexts) for o in I.obls.values()]
-    side = {"loops": I.loop_reports, "forall": I.forall_established, "contracts": I.contract_uses, "lemma_uses": I.lemma_uses}
+    side = {"analysed": sorted(set(n for _, n in I.call_log) | set(names)), "loops": I.loop_reports, "forall": I.forall_established, "contracts": I.contract_uses, "lemma_uses": I.lemma_uses}
     return obls, I.notes, errs, collected, len(I.call_log), side
 
 
@@ -72,9 +72,10 @@ def analyse_parallel(facts, invariants=None, roots=None, extra=None, jobs=None):
     merged = {}
     notes, errs, collected = [], [], []
     calls = 0
-    side = {"loops": {}, "forall": [], "contracts": {}, "lemma_uses": {}}
+    side = {"loops": {}, "forall": [], "contracts": {}, "lemma_uses": {}, "analysed": set()}
     for obls, ns, es, col, nc, sd in outs:
         calls += nc
+        side["analysed"].update(sd["analysed"])
         for k, v in sd["loops"].items():
             prev = side["loops"].get(k)
             if prev is None or (prev[0] and not v[0]):
